@@ -15,6 +15,7 @@ from tickit.core.typedefs import (
     Output,
     PortID,
     SimTime,
+    Skip,
 )
 
 LOGGER = logging.getLogger(__name__)
@@ -103,6 +104,21 @@ class NestedScheduler(BaseScheduler):
             )
         else:
             await super().update_component(input)
+
+    async def skip_component(self, skip: Skip) -> None:
+        """Skips a component. Mock "external" and "expose" are resolved locally.
+
+        The mock components have no topics of their own: their names are the same in
+        every nested scheduler, so a Skip sent over the state interface would also be
+        delivered to the schedulers of all other system simulations.
+
+        Args:
+            skip (Skip): The Skip to be propagated.
+        """
+        if skip.source in (ComponentID("external"), ComponentID("expose")):
+            await self.ticker.propagate(skip)
+        else:
+            await super().skip_component(skip)
 
     async def on_tick(
         self, time: SimTime, changes: Changes
